@@ -394,13 +394,16 @@ def subexprs(e):
     return out
 
 
-def swap_literal(e):
-    """e with every fromJSON('<literal>') replaced by fromJSON(env.x); None if there is none"""
-    found = [False]
+def swap_literal(e, start=0):
+    """e with every fromJSON('<literal>') replaced by an expression: fromJSON(env.x) (unknown value) or, for every
+    other object literal, github.event (an open object); None if there is no literal"""
+    hits = [start]
 
     def go(x):
         if x['k'] == 'call' and x['f'] == 'fromJSON' and x['a'][0]['k'] == 'json':
-            found[0] = True
+            hits[0] += 1
+            if x['a'][0]['jv']['k'] == 'jobj' and hits[0] % 2 == 0:
+                return {'k': 'prop', 'e': {'k': 'var', 'n': 'github'}, 'p': 'event'}
             return {'k': 'call', 'f': 'fromJSON', 'a': [{'k': 'prop', 'e': {'k': 'var', 'n': 'env'}, 'p': 'x'}]}
         y = dict(x)
         for key in ('e', 'i', 'l', 'r'):
@@ -410,7 +413,7 @@ def swap_literal(e):
             y['a'] = [go(a) for a in y['a']]
         return y
     r = go(e)
-    return r if found[0] else None
+    return r if hits[0] > start else None
 
 
 def random_part(ck, sd, tier, rng, finds):
@@ -427,7 +430,7 @@ def random_part(ck, sd, tier, rng, finds):
         g2 = dict(g1)
         e2 = None
         if rng.random() < 0.15:
-            e2 = swap_literal(e)
+            e2 = swap_literal(e, rng.choice([0, 1]))
         if e2 is None:
             used = [s for s in SLOTS if g1[s]['k'] != 'unset']
             s = rng.choice(used)
@@ -641,7 +644,7 @@ ROOT_EXPRS = ['R', 'R.a', 'R.x', 'R[0]', "R['a']", 'R.*', 'R.*.a', 'R.a.b', '!R'
               'contains(R.*, 1)', '(R || R.a).a']
 
 
-def hand_docs():
+def hand_docs(tier='quick'):
     """definition pairs written by hand: (name, doc1, doc2, callee1, callee2)"""
     out = []
 
@@ -770,6 +773,69 @@ def hand_docs():
                 both('matrix-value-%s-shape%d' % (tag, k), lambda v, e, a1=tmpl % lit1, a2=tmpl % text, r=root:
                      matrix_doc(['a: ' + (a2 if v else a1), 'include: [{zz: 1}]'], e.replace('R', r)))
 
+    def both_with(name, exprs, build):
+        for e in exprs:
+            out.append((name, build(0, e), build(1, e), CALLEE, CALLEE))
+
+    # MERGE sites, lint level.  `include` lists of 2 and 3 elements, each defining its own key, written as a literal
+    # mapping or as ${{ fromJSON('<literal>') }} (merged into the matrix type); the loosening replaces ONE element, at
+    # each position, by an expression of unknown type (which opens the matrix).  Whatever follows it in the list, the
+    # key only that element could supply must stay accepted.
+    inc_exprs = ['matrix.b', 'matrix.c', 'matrix.d', 'matrix.os', 'matrix.zz', 'matrix.*', "matrix['b']", "matrix['d']",
+                 'toJSON(matrix)', 'matrix.b == 1', 'matrix.c.x']
+    keys = ['b', 'c', 'd']
+
+    def inc_elem(form, k):
+        return '{%s: 1}' % k if form == 'map' else "${{ fromJSON('{\"%s\":1}') }}" % k
+    import itertools
+    for n in (2, 3):
+        for forms in itertools.product(('map', 'json'), repeat=n):
+            for pos in range(n):
+                def build(v, e, forms=forms, pos=pos, n=n):
+                    lines = ['os: [x]', 'include:']
+                    for i in range(n):
+                        lines.append('  - ' + (ANYX % 'I' if (v and i == pos) else inc_elem(forms[i], keys[i])))
+                    return matrix_doc(lines, e)
+                both_with('include-list%d-pos%d' % (n, pos), inc_exprs, build)
+
+    # The same with ONE key defined by every element (object values with different members): an element of unknown type
+    # may define that key with any value, so what the replaced literal contributed (matrix.a.x) must stay accepted.
+    same_exprs = ['matrix.a.x', 'matrix.a.y', 'matrix.a.z', 'matrix.a', 'matrix.a.*', 'matrix.a == github.event', 'matrix.a.x.w']
+    members = ['x', 'y', 'z']
+
+    def same_elem(form, m):
+        return '{a: {%s: 1}}' % m if form == 'map' else "${{ fromJSON('{\"a\":{\"%s\":1}}') }}" % m
+    for n in (2, 3):
+        for forms in itertools.product(('map', 'json'), repeat=n):
+            for pos in range(n):
+                def build(v, e, forms=forms, pos=pos, n=n):
+                    lines = ['os: [x]', 'include:']
+                    for i in range(n):
+                        lines.append('  - ' + (ANYX % 'I' if (v and i == pos) else same_elem(forms[i], members[i])))
+                    return matrix_doc(lines, e)
+                both_with('include-samekey%d-pos%d' % (n, pos), same_exprs, build)
+
+    # Rows in list form mixing statically typed elements; the loosening replaces ONE element, at each position of rows
+    # of length 2 and 3, by a ${{ }} element of unknown type.  The row is then unknown as a whole: every use the
+    # replaced element allowed (property, index, filter, comparison with object/array, array parameter) stays accepted.
+    row_exprs = ['matrix.cfg.name', 'matrix.cfg[0]', 'matrix.cfg.*', 'matrix.cfg == github.event', "matrix.cfg == fromJSON('[1]')",
+                 'join(matrix.cfg)', 'contains(matrix.cfg, 1)', 'matrix.cfg.name.x', 'matrix.cfg < 1', "startsWith(matrix.cfg, 'x')"]
+    lits2 = ['x', '1', 'true', 'null', '{name: x}', '[1]']
+    lits3 = ['x', '1', '{name: x}', '[1]'] if tier == 'thorough' else ['x', '{name: x}', '[1]']
+    for n, lits in ((2, lits2), (3, lits3)):
+        for elems in itertools.product(lits, repeat=n):
+            if any(elems.count(x) > 1 for x in ('true', 'null')):
+                continue        # the matrix rule reports duplicate values
+            for pos in range(n):
+                def build(v, e, elems=elems, pos=pos):
+                    # distinct values per position (x -> p, q, r; 1 -> 1, 2, 3)
+                    names = 'pqr'
+                    vals = [{'x': names[i], '1': str(i + 1), '{name: x}': '{name: %s}' % names[i], '[1]': '[%d]' % (i + 1)}.get(x, x)
+                            for i, x in enumerate(elems)]
+                    row = [('"' + ANYX % 'U' + '"') if (v and i == pos) else x for i, x in enumerate(vals)]
+                    return matrix_doc(['cfg: [' + ', '.join(row) + ']', 'include: [{zz: 1}]'], e)
+                both_with('row%d-pos%d' % (n, pos), row_exprs, build)
+
     # callee input typed vs untyped, caller unchanged
     for row in ('a: [{x: 1}]', 'a: [[1]]', 'a: [1]', 'a: [x]', 'a: [null]', 'a: [true]', 'a: ' + ANYX % 'A'):
         both('callee-input', lambda v, e, r=row: matrix_doc([r, 'include: [{zz: 1}]'], e.replace('R', 'matrix.a')),
@@ -794,7 +860,7 @@ def lint_part(ck, sd, tier, rng, finds, pairs, lintable):
             continue
         cases.append(('vector-matrix', matrix_doc(m1, v['t1']), matrix_doc(m2, v['t1']), CALLEE, CALLEE, (v, r1, r2)))
     nvec = len(cases)
-    for name, d1, d2, c1, c2 in hand_docs():
+    for name, d1, d2, c1, c2 in hand_docs(tier):
         cases.append((name, d1, d2, c1, c2, None))
     inp = []
     for i, (name, d1, d2, c1, c2, _) in enumerate(cases):
@@ -891,7 +957,7 @@ def run(ck, tier):
     ck.cov['rule'] = ('every state of the TLC generator = one triple (expression, environment, single-step loosening): access '
                       'chains of length <= 3 over 5-6 operators on a context variable of every small object type, one- and '
                       'two-level consumers (operators, contains/startsWith/format/join/toJSON/fromJSON) of a property of every '
-                      'small type, the six installable contexts incl. inputs/dispatch merge, fromJSON literal vs expression; '
+                      'small type, the six installable contexts incl. inputs/dispatch merge, fromJSON literal vs expression, || and && of two object literals with one operand replaced by an open object / unknown value; '
                       'each executed on the real checker under both environments; non-trivial = a diagnostic is predicted '
                       'under one of them; plus workflow renderings linted and random deeper triples validated by TLC')
     ck.cov['exhaustive'] = True
